@@ -403,6 +403,31 @@ def long_block(xs: list[fp.Real], x: fp.Real, n: fp.Real) -> fp.Real:
     return r + w
 
 
+@fp.fpy(ctx=fp.REAL)
+def rounds_c(x: fp.Real, y: fp.Real) -> fp.Real:
+    # the same context written out at several places (what `lift_context` shares), next to named ones
+    a = x + 321
+    with fp.IEEEContext(5, 16):
+        p = fp.round(a)
+    with fp.IEEEContext(5, 16):
+        q = fp.round(y)
+    b = p + q
+    if b > 322:
+        with fp.MPFixedContext(-8):
+            r = fp.round(b)
+        b = r + 323
+    else:
+        with fp.IEEEContext(5, 16):
+            s = fp.round(b)
+        with fp.FP32:
+            t = fp.round(s)
+        b = t + 324
+    with fp.MPFixedContext(-8):
+        u = fp.round(b)
+    return u + a
+
+
+ROOTS.append('rounds_c')
 ROOTS.append('long_block')
 ROOTS.append('rw_a')
 ROOTS.append('rw_c')
